@@ -31,7 +31,7 @@ DESIGN_REF = "§5 C07"
 def run(ctx, driver):
     rng = ctx.rng
     rec = propbase.Rec(ctx, ID)
-    n = 3000 if ctx.quick else 40000
+    n = 3000 if ctx.quick else 200000
     cases = [poolb1.gen_case(rng) for _ in range(n)]
     answers = driver.run([poolb1.model_line(c) for c in cases]) if driver else [None] * n
     for c, ans in zip(cases, answers):
